@@ -83,10 +83,17 @@ class NbConfig:
             return NP.TreeBandit(dict(self.tree_params))
         raise ValueError(self.np)
 
+    def policy(self):
+        if self.lp.startswith("lin-"):
+            from mabwiser.mab import LearningPolicy as LP
+            return {"lin-ucb": LP.LinUCB(1.25, 0.5), "lin-ts": LP.LinTS(0.5, 2.0), "lin-greedy": LP.LinGreedy(0.3, 1.0),
+                    "lin-ridge": LP.LinGreedy(0.0, 0.5)}[self.lp]
+        return self.cf.policy(self.init_bin)
+
     def new(self, arms=None):
         from mabwiser.mab import MAB
         arms = self.arms if arms is None else arms
-        return MAB([self.cf.lm[a] for a in arms], self.cf.policy(self.init_bin), self.neighborhood(), seed=self.seed,
+        return MAB([self.cf.lm[a] for a in arms], self.policy(), self.neighborhood(), seed=self.seed,
                    n_jobs=self.n_jobs, backend=self.backend)
 
 
